@@ -1586,10 +1586,15 @@ class TrajectoryStore:
             # If this is a merged store, find the right file and index into the
             # right group in that file.
             if nc_files.size_index is not None:
-                file_index = bisect.bisect_left(nc_files.size_index, index + 1)
-                if file_index >= len(nc_files.size_index):
+                size_index = nc_files.size_index
+                if len(nc_files.traj_dim) == 1:
+                    # A single file may have grown since it was opened (in
+                    # APPEND mode), so use its current length.
+                    size_index = [len(nc_files.traj_dim[0])]
+                file_index = bisect.bisect_left(size_index, index + 1)
+                if file_index >= len(size_index):
                     return
-                group_index = index - nc_files.size_index[file_index]
+                group_index = index - (size_index[file_index - 1] if file_index else 0)
             group = nc_files.groups[fs_name][file_index]
 
             # Read data from NetCDF variables.
